@@ -5,6 +5,7 @@ import LyModel.XsdRe.Drv
 import LyModel.Val.Drv
 import LyModel.Path.Drv
 import LyModel.Lyb.Drv
+import LyModel.Conc.Drv
 /-! Dispatch table of the line-protocol driver: one handler per component. -/
 namespace LyModel.Drv
 
@@ -17,6 +18,7 @@ def dispatch (comp op : String) (args : List String) : String :=
   | "val" => Val.Drv.handle op args
   | "path" => Path.Drv.handle op args
   | "lyb" => Lyb.Drv.handle op args
+  | "conc" => Conc.Drv.handle op args
   | _ => "err NoSuchComponent"
 
 end LyModel.Drv
